@@ -24,7 +24,7 @@ ASSUMPTIONS = ['inputs the real parser rejects are skipped (C03/C04 report those
                'nesting depth is bounded (RecursionError in the recursive printers is a resource limit)']
 BUDGET_S = {'quick': 70, 'thorough': 900}
 REQUIRED_HITS = ['pretty_print', 'reparse', 'fixpoint_compared', 'reference_reread', 'used_printer']
-FLOOR = {'quick': 3000, 'thorough': 60000}
+FLOOR = {'quick': 3000, 'thorough': 40000}
 
 INDENTS = ['  ', '\t', '', ' ', '    ', ' \t']
 
